@@ -640,7 +640,24 @@ class SimContext:
         self.pipe_capacity = pipe_capacity
         self.managers = []
         self.pipe_queues = []
+        self.flags = []
         self._n = {}
+        kernel.state_probes.append(self._abstract)
+
+    def _abstract(self):
+        """Abstract state of the simulated IPC objects: queue lengths (capped at 3), lock / event flags."""
+        out = []
+        for m in self.managers:
+            for o in m.objects:
+                if isinstance(o, SimManagerQueue):
+                    out.append(min(3, len(o.items)))
+                else:
+                    out.append(min(3, len(o.data)))
+        for q in self.pipe_queues:
+            out.append((min(3, len(q.pipe)), min(3, q.count)))
+        for f in self.flags:
+            out.append(f())
+        return tuple(out)
 
     def _name(self, base):
         n = self._n.get(base, 0)
@@ -664,13 +681,20 @@ class SimContext:
         return q
 
     def Lock(self):
-        return SimLock(self.k, self._name("lock"))
+        l = SimLock(self.k, self._name("lock"))
+        self.flags.append(lambda: l.held)
+        return l
 
     def RLock(self):
-        return SimRLock(self.k, self._name("rlock"))
+        l = SimRLock(self.k, self._name("rlock"))
+        self.flags.append(lambda: l.count)
+        return l
 
     def Event(self):
-        return SimEvent(self.k, self._name("event"))
+        e = SimEvent(self.k, self._name("event"))
+        if len(self.flags) < 24:
+            self.flags.append(lambda: e.flag)
+        return e
 
     def Value(self, typecode, value=0, lock=True):
         return SimValue(self.k, typecode, value, self._name("value"))
